@@ -794,7 +794,9 @@ func intFromArg(a []interface{}, argNum int) (num int, isInt bool, newArgNum int
   requires 0 <= argNum
   modifies nothing
   ensures -1000000 <= num && num <= 1000000
-  ensures newArgNum == argNum || (newArgNum == argNum + 1 && argNum < len(a))
+  -- the operand of a * is consumed whatever it is (an operand that is not an integer is reported, not left for the
+  -- verb), and none is consumed when there is none
+  ensures [C05,C15,C16] (argNum < len(a) ==> newArgNum == argNum + 1) && (argNum >= len(a) ==> newArgNum == argNum && !isInt)
 
 func parseArgNumber(format string) (index int, wid int, ok bool)
   modifies nothing
